@@ -34,6 +34,8 @@ RUNTIME = '''
 import struct as _struct
 from iso_pyx import MemoryFault
 
+MAX_WRITTEN = {}
+
 class _Poison:
     def __repr__(self): return 'POISON'
 _P = _Poison()
@@ -76,6 +78,8 @@ class _Arr:
         if v is _P: raise MemoryFault('read of uninitialised memory %s[%d]' % (self.name, i))
         return v
     def __setitem__(self, i, v):
+        if i + 1 > MAX_WRITTEN.get(self.name, 0):       # highest cell the C code tried to write (occupancy of the stack arrays)
+            MAX_WRITTEN[self.name] = i + 1
         self._chk(i, 'write')
         if self.kind == 'bint': self.a[i] = bool(v)
         elif self.kind == 'unsigned int': self.a[i] = _u32(v)
